@@ -90,7 +90,7 @@ HWalkCase(p) ==
   LET n == Len(p.hs) + 2 IN
   [mem |-> HWalkImage(p), al |-> 0,
    calls |-> <<[op |-> "hload"], [op |-> "htags", it |-> 0], [op |-> "next", it |-> 0], [op |-> "clone", it |-> 0, to |-> 1]>>
-             \o <<[op |-> "count", it |-> 0], [op |-> "clone", it |-> 0, to |-> 3], [op |-> "nth", it |-> 3, n |-> 1],
+             \o <<[op |-> "last", it |-> 0], [op |-> "count", it |-> 0], [op |-> "clone", it |-> 0, to |-> 3], [op |-> "nth", it |-> 3, n |-> 1],
                   [op |-> "nth", it |-> 3, n |-> 2], [op |-> "next", it |-> 3]>>
              \o Rep([op |-> "next", it |-> 0], n) \o Rep([op |-> "next", it |-> 1], n)
              \o <<[op |-> "hget", kind |-> "info_req"], [op |-> "hfield", kind |-> "info_req", f |-> "requests"],
@@ -112,7 +112,9 @@ HFieldsCase(p) ==
 HGKinds == {"entry", "module_align", "info_req", "relocatable"}
 RECURSIVE SeqsUpTo(_, _)
 SeqsUpTo(S, n) == IF n = 0 THEN {<<>>} ELSE {<<>>} \cup { <<x>> \o r : x \in S, r \in SeqsUpTo(S, n - 1) }
+HLongSeq(n, lastKind) == [i \in 1..n |-> IF i % 2 = 0 THEN "module_align" ELSE "entry"] \o <<lastKind>>
 HGettersParams == { [ks |-> ks] : ks \in SeqsUpTo(HGKinds, MaxTags) }
+                  \cup { [ks |-> HLongSeq(n, k)] : n \in {10, 11, 12, 23}, k \in {"relocatable", "info_req"} }
 HGettersCase(p) ==
   [mem |-> HdrImage(0, [i \in 1..Len(p.ks) |-> HConformantTag(p.ks[i], i % 2)] \o <<HTag(0, 0, 8, 0)>>),
    al |-> 0,
